@@ -93,6 +93,12 @@ def check_post(ob, E, o, what, old_ids, new_ids, vec_ids, set_ids, result=None):
 
 
 def obligations(ctx):
+    set_containers(ctx)
+    asset_name_order(ctx)
+    reference_inputs_deterministic(ctx)
+
+
+def set_containers(ctx):
     P = ctx.P
     kmax = 2
     nmax = 2 if ctx.tier == "quick" else 3
@@ -210,3 +216,95 @@ def obligations(ctx):
         done.append("deserialize+serialize")
         ob.bound += "; insertion paths executed: " + ", ".join(done)
         ob.finish(agg, lambda m, info=None: ("e2n_c16_sets", []))
+
+
+def asset_name_order(ctx):
+    """Canonical CBOR key order of asset names (shorter first, equal lengths bytewise) — the one crate-specific ingredient of
+    "asset bundles and the mint field are emitted in canonical key order": the containers are std BTreeMaps keyed by
+    PolicyID (fixed 28 bytes, derived bytewise order) and AssetName (this comparison)."""
+    P = ctx.P
+    E = Engine(P)
+    ob = Obligation(ctx, "c16_e2_asset_name_canonical_order", "two arbitrary asset names (lengths and contents arbitrary)", ["<AssetName as Ord>::cmp", "<AssetName as PartialOrd>::partial_cmp"])
+    U = E.U
+    bcmp = z3.Function("bytes_cmp", U, U, z3.IntSort())      # -1 / 0 / 1: lexicographic comparison of byte vectors (std)
+    ln = z3.Function("container_len", U, z3.IntSort())
+    def vec_cmp(E_, c, a):
+        ua, ub = E_.as_u(VM.deref(E_, a[0])), E_.as_u(VM.deref(E_, a[1]))
+        r = bcmp(ua, ub)
+        E_.pc.append(z3.And(r >= -1, r <= 1))
+        i = E_.choose([r == -1, r == 0, r == 1], "Vec<u8>::cmp")
+        E_.trace.append(("bytes_cmp", ua, ub))
+        return VEnum("Ordering", ["Less", "Equal", "Greater"][i], [])
+    E.extra_intrinsics[r"^<std::vec::Vec<u8> as (std::cmp::)?Ord>::cmp$"] = vec_cmp
+    seen = set()
+    for entry in ("<AssetName as Ord>::cmp", "<AssetName as PartialOrd>::partial_cmp"):
+        for o in E.explore(entry, lambda: [R(VLazy("a", "AssetName"), "a"), R(VLazy("b", "AssetName"), "b")], max_paths=40):
+            if o.kind != "return":
+                ob.vc("no panic (%s %s)" % (o.kind, o.msg), o.pc, z3.BoolVal(False)); continue
+            E.enter(o)
+            v = o.value
+            if entry.endswith("partial_cmp"):
+                if v.variant != "Some":
+                    ob.violation("partial_cmp returns None"); continue
+                v = v.fields[0]
+            seen.add(v.variant)
+            ua = E.as_u(VLazy("a.0", "std::vec::Vec<u8>"))
+            ub = E.as_u(VLazy("b.0", "std::vec::Vec<u8>"))
+            la, lb = ln(ua), ln(ub)
+            want = z3.If(la < lb, -1, z3.If(la > lb, 1, bcmp(ua, ub)))
+            got = {"Less": -1, "Equal": 0, "Greater": 1}[v.variant]
+            ob.vc("%s: shorter name first, equal lengths bytewise (result %s)" % (entry.split("::")[-1], v.variant), o.pc, want == got)
+    if seen != {"Less", "Equal", "Greater"}:
+        ob.fail("expected all three outcomes, saw %s" % sorted(seen))
+    ob.finish(E)
+
+
+def reference_inputs_deterministic(ctx):
+    """Repeated builds are byte-identical only if every sequence the builder emits is a FUNCTION of the builder state.  The
+    reference inputs are gathered from several sources through an intermediate container: with hash containers modelled as
+    iterating in an arbitrary order (nothing relates two iterations) and ordered containers as iterating in an arbitrary
+    but FIXED total order, two executions of get_reference_inputs on the same state must yield the same sequence."""
+    P = ctx.P
+    ob = Obligation(ctx, "c16_e2_reference_inputs_deterministic", "2 explicitly declared reference inputs + 1 from the input scripts; de-duplication option on / off; two independent executions compared",
+                    ["TransactionBuilder::get_reference_inputs"], fallback_native="e2n_c16_repeat_build")
+    agg = Engine(P)
+    U = agg.U
+    for dedup in (False, True):
+        runs = []
+        for run in (0, 1):
+            E = Engine(P, max_loop=8)
+            E.U = U
+            E.model_iteration_order = True
+            # sub-builders: one reference input from the spending scripts, none elsewhere
+            E.extra_intrinsics[r"TxInputsBuilder::get_ref_inputs$"] = lambda E_, c, a: E_.mk_struct("TransactionInputs", inputs=VSeq([rc(VLazy("script_ref", "TransactionInput"))], "vec"), dedup=VSeq([rc(VLazy("script_ref", "TransactionInput"))], "set"))
+            E.extra_intrinsics[r"TxInputsBuilder::has_input$"] = lambda E_, c, a: VBool(False)
+            def mk(E=E, dedup=dedup):
+                cfg = E.mk_struct("TransactionBuilderConfig", deduplicate_explicit_ref_inputs_with_regular_inputs=VBool(dedup))
+                refs = VSeq([VStruct("()", [VLazy("declared%d" % j, "TransactionInput"), VInt(0, "usize")]) for j in range(2)], "hmap")
+                ids = [E.as_u(VLazy("declared0", "TransactionInput")), E.as_u(VLazy("declared1", "TransactionInput")), E.as_u(VLazy("script_ref", "TransactionInput"))]
+                for a, b in itertools.combinations(ids, 2):
+                    E.pc.append(a != b)
+                none = VEnum("Option", "None", [])
+                tb = E.mk_struct("TransactionBuilder", config=cfg, inputs=VLazy("inputs", "TxInputsBuilder"), reference_inputs=refs, mint=none, withdrawals=none, certs=none,
+                                 voting_procedures=none, voting_proposals=none)
+                return [R(tb, "self")]
+            outs = []
+            for o in E.explore("TransactionBuilder::get_reference_inputs", mk, max_paths=400):
+                if o.kind != "return":
+                    ob.vc("no panic (%s %s)" % (o.kind, o.msg), o.pc, z3.BoolVal(False)); continue
+                E.enter(o)
+                vec_ids, _ = fields_of(E, P, "TransactionInputs", "inputs", "dedup", o.value)
+                # keep only the constraints about the iteration orders (decision variables are run-local by construction)
+                outs.append((vec_ids, list(o.pc)))
+            runs.append(outs)
+            agg.stats["paths"] += E.stats["paths"]; agg.stats["feasibility_queries"] += E.stats["feasibility_queries"]; agg.stats["functions"] |= E.stats["functions"]
+        if not runs[0] or not runs[1]:
+            ob.fail("no path returned (dedup %s)" % dedup); continue
+        for (sa, pa), (sb, pb) in itertools.product(runs[0], runs[1]):
+            same = z3.And([x == y for x, y in zip(sa, sb)]) if len(sa) == len(sb) else z3.BoolVal(False)
+            # run-local decision variables ("hash_order!k") are distinct fresh constants, the ordered-container relation and the
+            # element identities are shared: the two executions see the same builder state
+            ob.vc("two executions on the same builder state emit the same sequence of reference inputs (dedup option %s; orders %s / %s)" % (dedup, [str(x)[-12:] for x in sa], [str(x)[-12:] for x in sb]),
+                  pa + pb, same)
+    ob.cross_every = 4
+    ob.finish(agg, lambda m, info=None: ("e2n_c16_repeat_build", []))
